@@ -242,12 +242,21 @@ def run(ctx: Ctx) -> None:
                       want_lines=False, timeout=1500)
         tlc_must_hold(ctx, "M complete graph 1 store, 2 non-root nodes, offsets {-1,0}, <=2 links", res, "HugrStore model")
         ctx.exhaustive = True
+        # ---- design level: the sub-offset algorithm refines the bag model (and the algorithm of the pinned tree does not)
+        icfg = ('INIT Init\nNEXT Next\nCONSTANT OutPorts = {"a", "b"}\nCONSTANT InPorts = {"x", "y"}\nCONSTANT MaxLinks = %d\n'
+                'CONSTANT Compact = %s\nINVARIANT Refines\nCHECK_DEADLOCK FALSE\n')
+        res = run_tlc("HugrStoreImpl", icfg % (4 if quick else 5, "TRUE"), wd, workers=8, heap="4g", want_lines=False, timeout=1500)
+        tlc_must_hold(ctx, "M HugrStoreImpl (sub-offset compaction) refines the bag of links", res, "HugrStoreImpl refinement")
+        res = run_tlc("HugrStoreImpl", icfg % (3, "FALSE"), wd, workers=2, heap="2g", want_lines=False, timeout=600)
+        if res.violated != "Refines":
+            raise MachineryError("HugrStoreImpl: the uncompacted algorithm was expected to violate Refines (vacuity of the refinement check)")
+        ctx.legs["M HugrStoreImpl without compaction"] = {"violates": "Refines", "states": res.distinct}
         # ---- S->C: one behaviour per state
         rp = Replayer(ctx, (-1, 0, 1), "C04")
-        sizes = ("OffsetsTwo", 3, 2, "CountsOne") if quick else ("OffsetsAll", 3, 2, "CountsTwo")
+        sizes = ("OffsetsTwo", 3, 2, "CountsOne") if quick else ("OffsetsTwo", 3, 2, "CountsTwo")   # OffsetsAll: 3.2e6 states, too many to replay one by one
         res = run_tlc("MC_HugrStore", cfg(["a"], ["none"] if quick else ["none", "m"], sizes[0], sizes[1], sizes[2], [1], False, 40, sizes[3], emit="state", laws=False),
                       wd, workers=1, heap="8g", line_sink=lambda ln: rp.feed_path(ln) if isinstance(ln, dict) and "hist" in ln else None,
-                      timeout=2400)
+                      timeout=5400)
         tlc_must_hold(ctx, "S2C one behaviour per state", res, "HugrStore model (emission)")
         ctx.note("states_replayed", rp.n)
         if rp.n < 1000:
